@@ -61,6 +61,38 @@ def f32_f64_cases(rng, pairs):
     return cases
 
 
+def scaled_cases(rng, pairs):
+    """exact-arithmetic operand pairs scaled by powers of two across the f32 range: the f32 result must be the
+    f64 result coordinate for coordinate (scaling by 2^k commutes with every rounding as long as nothing
+    over- or underflows).  The last two scales reproduce the known finding N4."""
+    cases = []
+    scales = [-72, -60, -45, -38, -34, 34, 40, 50, 58]
+    for idx, (fam, a, b) in enumerate(pairs):
+        a, b = plans.closed(a), plans.closed(b)
+        c = Case("C10s-%s-%d" % (fam, idx), fam)
+        for k in rng.sample(scales, 3):
+            f = Fraction(2) ** k
+            a2 = gen.map_mpoly(a, lambda p: (p[0] * f, p[1] * f))
+            b2 = gen.map_mpoly(b, lambda p: (p[0] * f, p[1] * f))
+            for op in rng.sample(OPS, 2):
+                k32 = c.run(bool_req("f32", op, False, BUDGET, "MM", a2, b2))
+                k64 = c.run(bool_req("f64", op, False, BUDGET, "MM", a2, b2))
+                c.check("identical %d %d" % (k32, k64))
+        cases.append(c)
+    # N4: beyond the range in which the cross products stay finite and non-zero
+    sq = lambda x0, y0, x1, y1: [[[(x0, y0), (x1, y0), (x1, y1), (x0, y1), (x0, y0)]]]
+    c = Case("C10s-range", "g1")
+    for k in (63, -80):
+        f = Fraction(2) ** k
+        a2 = gen.map_mpoly(sq(0, 0, 4, 4), lambda p: (p[0] * f, p[1] * f))
+        b2 = gen.map_mpoly(sq(2, 2, 6, 6), lambda p: (p[0] * f, p[1] * f))
+        k32 = c.run(bool_req("f32", "I", False, BUDGET, "MM", a2, b2))
+        k64 = c.run(bool_req("f64", "I", False, BUDGET, "MM", a2, b2))
+        c.check("identical %d %d" % (k32, k64))
+    cases.append(c)
+    return cases
+
+
 # ---------------------------------------------------------------------------------------------
 # function level: intersection and the pairwise step
 
@@ -302,6 +334,31 @@ def tjunction_cases(rng, n, prec="f64"):
     return cases
 
 
+def cmp_oracle(case):
+    """python side of C15 / C10 for `pycmp k`: two left events at one point whose segments are not collinear
+    are ordered by the exact orientation of (point, other1, other2) (`C15_cmp_angular`): the lower segment
+    is processed first"""
+    out = []
+    for i, ch in enumerate(case.checks):
+        if not ch.startswith("pycmp"):
+            continue
+        k = ch.split()[1]
+        t = case.reqs.get(k, "").split()
+        impl = case.impl.get(k, "")
+        if len(t) != 16 or t[0] != "CMPEV" or t[4] != "L" or t[11] != "L" or (t[2], t[3]) != (t[9], t[10]):
+            continue
+        P = (num.dec(t[2]), num.dec(t[3]))
+        A = (num.dec(t[7]), num.dec(t[8]))
+        B = (num.dec(t[14]), num.dec(t[15]))
+        o = (P[0] - B[0]) * (A[1] - B[1]) - (P[1] - B[1]) * (A[0] - B[0])
+        if o == 0:
+            continue
+        want = "Greater" if o > 0 else "Less"
+        if impl.split()[:1] != [want]:
+            out.append((i, "events at one point ordered against the exact orientation: got %s, the exact order is %s" % (impl[:20], want)))
+    return out
+
+
 def c16_oracle(case):
     """python side of C16 on integer inputs: the implementation's classification (return code, which
     segments were split, how many events were queued) must equal the exact model's, and the division
@@ -377,6 +434,65 @@ def _near_collinear_events(rng):
     return p, a, b
 
 
+def _f32(x):
+    import struct
+    return Fraction(struct.unpack("f", struct.pack("f", float(x)))[0])
+
+
+def _near_collinear_f32(rng):
+    """P (magnitude ~1000), A anywhere, B of magnitude 1..50 within a few f32 ulps of B of the line P A: the
+    orientation of (P, A, B) is decided by bits that an f32 subtraction `B - P` would round away"""
+    while True:
+        P = (_f32(rng.uniform(500, 2000) * rng.choice([1, -1])), _f32(rng.uniform(500, 2000) * rng.choice([1, -1])))
+        B0 = (rng.uniform(1, 50), rng.uniform(1, 50))
+        t = rng.uniform(1.2, 3.0) if rng.random() < 0.5 else rng.uniform(0.3, 0.8)
+        A = (_f32(float(P[0]) + (B0[0] - float(P[0])) * t), _f32(float(P[1]) + (B0[1] - float(P[1])) * t))
+        if A == P:
+            continue
+        # the point of the line P A nearest to B0 in x, then a few ulps of jiggle
+        dx, dy = A[0] - P[0], A[1] - P[1]
+        if dx == 0:
+            continue
+        bx = _f32(B0[0])
+        by_exact = P[1] + dy * (bx - P[0]) / dx
+        by = _f32(by_exact)
+        import struct
+        bits = struct.unpack("i", struct.pack("f", float(by)))[0] + rng.randint(-3, 3)
+        by = Fraction(struct.unpack("f", struct.pack("i", bits))[0])
+        B = (bx, by)
+        if B != P and B != A:
+            return P, A, B
+
+
+def order_cases_f32(rng, n):
+    """f32 comparisons of events / segments sharing their left endpoint, nearly collinear, with the far
+    endpoints of very different magnitude (seed C10-3)"""
+    cases = []
+    per = 40
+    for ci in range(max(1, n // per)):
+        c = Case("ord32-%d" % ci, "fn")
+        for _ in range(per):
+            P, A, B = _near_collinear_f32(rng)
+            if not (_before(P, A) and _before(P, B)):
+                # use the sweep-earlier endpoint as the event point where possible
+                if _before(A, P) and _before(B, P):
+                    for (s1, s2) in ((True, False), (True, True)):
+                        c.run("CMPEV f32 %s %s" % (_event(A, P, s1, 1).replace(" L ", " L "), _event(B, P, s2, 2)))
+                    continue
+                continue
+            for (s1, s2) in ((True, False), (True, True)):
+                e1, e2 = _event(P, A, s1, 1), _event(P, B, s2, 2)
+                k1 = c.run("CMPEV f32 %s %s" % (e1, e2))
+                k2 = c.run("CMPEV f32 %s %s" % (e2, e1))
+                c.check("pycmp %d" % k1)
+                c.check("pycmp %d" % k2)
+                c.run("CMPSEG f32 0 %s %s" % (e1, e2))
+                c.run("CMPSEG f32 0 %s %s" % (e2, e1))
+            c.run("ORIENT f32 %s %s %s" % (_pt(P), _pt(A), _pt(B)))
+        cases.append(c)
+    return cases
+
+
 def order_cases(rng, n):
     cases = []
     per = 40
@@ -391,8 +507,10 @@ def order_cases(rng, n):
                 c.run("CMPSEG f64 0 %s %s" % (e2, e1))
             p, a, b = _near_collinear_events(rng)
             for (s1, s2) in ((True, True), (True, False)):
-                c.run("CMPEV f64 %s %s" % (_event(p, a, s1, 1), _event(p, b, s2, 2)))
-                c.run("CMPEV f64 %s %s" % (_event(p, b, s2, 2), _event(p, a, s1, 1)))
+                k1 = c.run("CMPEV f64 %s %s" % (_event(p, a, s1, 1), _event(p, b, s2, 2)))
+                k2 = c.run("CMPEV f64 %s %s" % (_event(p, b, s2, 2), _event(p, a, s1, 1)))
+                c.check("pycmp %d" % k1)
+                c.check("pycmp %d" % k2)
         for _ in range(per):
             kind = rng.choice(["lat", "lat", "lat", "float", "big"])
             p1, q1 = _rand_seg(rng, kind, "f64")
@@ -877,6 +995,11 @@ def c18_stack(tier):
         jobs.append(("x-sweep", n, True))
         jobs.append(("x-sweepdesc", n, True))
         jobs.append(("x-sweepdesc", n, False))
+        # every edge in the result: chains of `prev_in_result` links as long as the operand (seeds C18-4, C03-4)
+        jobs.append(("x-union", n, True))
+        jobs.append(("x-bars", n, True))
+    jobs.append(("x-union", 600000, False))
+    jobs.append(("x-bars", 300000, False))
     from concurrent.futures import ThreadPoolExecutor
     def run(j):
         name, n, thr = j
@@ -904,7 +1027,7 @@ def c03_large_children(tier):
     findings = []
     rows = []
     sizes = (20000, 100000) if tier == "quick" else (10000, 20000, 50000, 100000, 200000, 500000)
-    jobs = [(sc, n, thr) for sc in ("x-sweep", "x-sweepdesc") for n in sizes for thr in (False, True)]
+    jobs = [(sc, n, thr) for sc in ("x-sweep", "x-sweepdesc", "x-union", "x-bars") for n in sizes for thr in (False, True)]
     from concurrent.futures import ThreadPoolExecutor
     def run(j):
         sc, n, thr = j
